@@ -1069,7 +1069,9 @@ func (m *membershipAllower) membershipAllowed(event PDU) error { // nolint: gocy
 		if err := json.Unmarshal(event.Content(), &mapping); err != nil {
 			return err
 		}
-		if mapping.MXIDMapping != nil {
+		// Only pseudo-ID rooms map the sender through the event: elsewhere the mapping is
+		// attacker-controlled content and must not stand in for the sender's user ID.
+		if mapping.MXIDMapping != nil && event.Version() == RoomVersionPseudoIDs {
 			sender, err = spec.NewUserID(mapping.MXIDMapping.UserID, true)
 			if err != nil {
 				return err
